@@ -21,7 +21,9 @@ RULE = (
     "trailing in signature order, extended by exactly the declared widths with the rule in force (set of core blocks "
     "compared order-agnostically over leading axes; corner cells may follow any sequential order); outputs are "
     "DataArrays whose trailing dims are the declared output positions; definition-time options act like call-time "
-    "ones and call-time overrides; a mis-positioned input is rejected; pad_before_func bound at definition == call. Class "
+    "ones and call-time overrides; in a third of the cases the same "
+    "ufunc object and option objects are then applied on a second grid with different defaults (judged with that grid's "
+    "rules); a mis-positioned input is rejected; pad_before_func bound at definition == call. Class "
     "= (supply mode, #inputs, #outputs, dummies per argument, which options come from which level, rules); non-trivial "
     "iff some width > 0 or several inputs/dummies."
 )
@@ -142,11 +144,19 @@ def run_case(ctx, desc):
         call = {k: v for k, v in desc["call"].items() if v is not None}
         bw_def, bw_call = desc["bw"], desc["call_bw"]
     eff_bw = bw_call if bw_call is not None else (bw_def or {})
+    import copy
+
     eff = {}
     for k in ("boundary", "fill_value"):
         eff[k] = call[k] if k in call else defn.get(k)
+    # the model keeps its own copy of the options in force; the library is handed separate objects (which stay the same
+    # objects over all calls of this case, as a user's would)
+    eff = copy.deepcopy(eff)
+    defn, call = copy.deepcopy(defn), copy.deepcopy(call)
 
-    def invoke(arglist):
+    made = {}
+
+    def invoke(arglist, g=g):
         if mode == "apply":
             return apply_as_grid_ufunc(body, *arglist, axis=axis, grid=g, signature=sig,
                                        boundary_width={d: tuple(w) for d, w in bw_call.items()}, **call)
@@ -154,7 +164,9 @@ def run_case(ctx, desc):
             # the same through the Grid method
             return g.apply_as_grid_ufunc(body, *arglist, axis=axis, signature=sig,
                                          boundary_width={d: tuple(w) for d, w in bw_call.items()}, **call)
-        if mode == "hints":
+        if "gu" in made:
+            gu = made["gu"]  # the ufunc is defined once and called many times
+        elif mode == "hints":
             from typing import Annotated, Tuple
 
             params = [f"a{k}" for k in range(len(ins))]
@@ -168,6 +180,7 @@ def run_case(ctx, desc):
             gu = as_grid_ufunc(boundary_width={d: tuple(w) for d, w in bw_def.items()}, **defn)(f)
         else:
             gu = as_grid_ufunc(signature=sig, boundary_width={d: tuple(w) for d, w in bw_def.items()}, **defn)(body)
+        made["gu"] = gu
         kw = dict(call)
         if bw_call is not None:
             kw["boundary_width"] = {d: tuple(w) for d, w in bw_call.items()}
@@ -193,28 +206,55 @@ def run_case(ctx, desc):
     if len(rec) != 1:
         ctx.violation("function-called-once", f"user function called {len(rec)} times for in-memory inputs")
         return
-    got = rec[0]
-    for k, (x, arg, da) in enumerate(zip(got, ins, args)):
-        core = [cm[bind[d]][p] for d, p in arg]
-        other = [d for d in da.dims if d not in core]
-        nc = len(arg)
-        padded_axes = [d for d in eff_bw if d in [q for q, _ in arg] and max(eff_bw[d]) > 0]
-        ok = False
-        exp_shape = None
-        for order in itertools.permutations(padded_axes):
-            e = da.transpose(*other, *core).values
-            for d in order:
-                lo, hi = eff_bw[d]
-                ax = len(other) + [q for q, _ in arg].index(d)
-                rule, fv = resolve.in_force(bind[d], desc["ctor"], eff)
-                e = pad_axis(e, ax, lo, hi, rule, fv)
-            exp_shape = e.shape[e.ndim - nc:]
-            if tuple(x.shape[x.ndim - nc:]) == tuple(exp_shape) and block_set(x, nc) == block_set(e, nc):
-                ok = True
-                break
-        if not ok:
-            ctx.violation("received-arrays", f"input {k} of {sig} (axis {axis}, widths {eff_bw}, options in force {eff}, mode {mode}): "
-                                            f"received trailing shape {x.shape[x.ndim - nc:]} expected {exp_shape}; core blocks differ from every sequential padding order")
+    def judge_received(got, ctor_desc):
+        for k, (x, arg, da) in enumerate(zip(got, ins, args)):
+            core = [cm[bind[d]][p] for d, p in arg]
+            other = [d for d in da.dims if d not in core]
+            nc = len(arg)
+            padded_axes = [d for d in eff_bw if d in [q for q, _ in arg] and max(eff_bw[d]) > 0]
+            ok = False
+            exp_shape = None
+            for order in itertools.permutations(padded_axes):
+                e = da.transpose(*other, *core).values
+                for d in order:
+                    lo, hi = eff_bw[d]
+                    ax = len(other) + [q for q, _ in arg].index(d)
+                    rule, fv = resolve.in_force(bind[d], ctor_desc, eff)
+                    e = pad_axis(e, ax, lo, hi, rule, fv)
+                exp_shape = e.shape[e.ndim - nc:]
+                if tuple(x.shape[x.ndim - nc:]) == tuple(exp_shape) and block_set(x, nc) == block_set(e, nc):
+                    ok = True
+                    break
+            if not ok:
+                return (f"input {k} of {sig} (axis {axis}, widths {eff_bw}, options in force {eff}, mode {mode}): "
+                        f"received trailing shape {x.shape[x.ndim - nc:]} expected {exp_shape}; core blocks differ from every sequential padding order")
+        return None
+
+    why = judge_received(rec[0], desc["ctor"])
+    if why:
+        ctx.violation("received-arrays", why)
+        return
+    # the same ufunc object and the very same option objects on a second grid whose own defaults differ: what the
+    # options leave open must come from the grid of *this* call, not from the grid of an earlier one
+    if desc["dseed"] % 3 == 0:
+        k0 = desc["dseed"] // 3
+        rot = lambda v: gen.RULES[(gen.RULES.index(v) + 1 + k0 % 2) % len(gen.RULES)]  # noqa: E731
+        c1 = desc["ctor"]
+        b1, f1 = c1.get("boundary"), c1.get("fill_value")
+        ctor2 = {"periodic": not c1["periodic"],
+                 "boundary": {a: rot(v) for a, v in b1.items()} if isinstance(b1, dict) else (rot(b1) if b1 is not None else gen.RULES[k0 % 3]),
+                 "fill_value": {a: v + 1.5 for a, v in f1.items()} if isinstance(f1, dict) else (f1 + 1.5 if f1 is not None else 4.5)}
+        ctx.judged(("second-grid", mode, {k: ("call" if k in call else "def" if k in defn else "grid") for k in ("boundary", "fill_value")}), nontrivial)
+        try:
+            g2 = Grid(ds, coords=cm, autoparse_metadata=False, **ctor2)
+            rec.clear()
+            invoke(args, g2)
+        except Exception as e:
+            ctx.violation("well-posed-call-returns", f"{mode} {sig}: the same ufunc on a second grid {ctor2} raised {type(e).__name__}: {str(e)[:200]}")
+            return
+        why = judge_received(rec[0], ctor2) if len(rec) == 1 else f"user function called {len(rec)} times"
+        if why:
+            ctx.violation("received-arrays", f"second grid {ctor2} after a call on {c1}: " + why)
             return
     rs = r if isinstance(r, (tuple, list)) else (r,)
     if len(rs) != len(outs):
